@@ -67,6 +67,9 @@ CLAIMS = {
              "about the mechanically translated program, stated over the translated Parse only: never a Go panic (c01q_no_panic), "
              "node xor error (c01q_xor), termination for certified grammars (c01q_terminates), fuel monotonicity, soundness "
              "(c01q_sound: every returned tree is a derivation); instance: the arithmetic grammar on every input (c01q_arith). "
+             "Props/C01R.lean repeats the closed world with the TRANSLATED terminal closures as leaves (c01r_closed_world and the "
+             "same corollaries): the only things then taken from the model are the reader's functions (tied separately by C09P / "
+             "C10P) and the library parameters (regexp engine, strconv, time). "
              "Derives is the monotone reading (Choice as Any, repetitions may stop wherever lenCheck allows): soundness is claimed against "
              "it. TermGood (terminals return well-positioned leaves) is proved of the built-in terminals by C08 (c08_termGood). A "
              "sequence stops enumerating after an alternative whose last node has token EOF: completeness is stated below the Sentence wrapper.",
@@ -226,7 +229,8 @@ CLAIMS = {
              "proof attempt exposed defect D11, fixed in /repo); float/duration for EVERY conversion function. Tied to "
              "text/terminal/*.go by a differential run over literal-shaped, boundary and malformed byte strings x offsets, with the Go "
              "conversions (strconv, time, utf8, regexp) called directly on the lexeme the model reports.",
-        note="TIED BY TRANSLATION (Props/C08P.lean): unquoteString (both loops; strconv.UnquoteChar a parameter with an explicit contract) is translated from /repo on every run and proved equal to the model (c08_translated_unquoteString), Readf over it agrees with the model, the consumed bytes never contain CR or LF (c08p_no_raw_linebreak). The terminal closures themselves are tied by the differential run. "
+        note="THE TERMINAL CLOSURES THEMSELVES ARE TIED BY TRANSLATION (Props/C08Q.lean): the function literals and constructor prologues of Rune, Op, Word, Bool, Nil, Integer, Float, Char, String, TimeDuration, Regexp are translated from /repo on every run (factgen -out-term -> Generated/FactsTerm.lean) and proved to agree with Terminal.parse at every position - node kind, token, value, span, error kind / message / position, and the documented panics (c08_translated_terminals, c08q_constructors, c08q_documented_panics); totality and the node span are restated about the translated code (c08q_total, c08q_node_span). The regexp texts in the world contract are the printed syntax trees of Spec/Regex.lean, so a changed expression breaks the tie. 46 semantic edits each break a tie, 14 equivalent rewrites do not. "
+             "TIED BY TRANSLATION (Props/C08P.lean): unquoteString (both loops; strconv.UnquoteChar a parameter with an explicit contract) is translated from /repo on every run and proved equal to the model (c08_translated_unquoteString), Readf over it agrees with the model, the consumed bytes never contain CR or LF (c08p_no_raw_linebreak). The terminal closures themselves are tied by the differential run. "
              "strconv.ParseFloat, time.ParseDuration and the regexp engine for user expressions are universally quantified parameters "
              "(contract: match length within the rest); strconv.ParseInt / UnquoteChar / utf8 are re-implemented and compared with "
              "the real functions on every sampled input.",
